@@ -156,7 +156,16 @@ fn run_case(s: &mut Suite, cli: &str, aws: bool, n: usize, o: &Opts) {
 	let alg_ok = matches!(alg_model, "p256" | "p384" | "ed25519") || (aws && matches!(alg_model, "p521" | "rsa"));
 	let names_ok = o.san.iter().all(|x| x.parse::<std::net::IpAddr>().is_ok() || x.is_ascii());
 	let valid = printable(&country) && alg_ok && names_ok;
-	if o.cert != o.ca && !o.cert.contains('/') && !o.ca.contains('/') {
+	// "distinct base names": the four files <cert>.key.pem, <cert>.pem, <ca>.key.pem, <ca>.pem are
+	// four different files (x / x.key are different names of the same file x.key.pem)
+	let mut four = vec![format!("{}.key.pem", o.cert), format!("{}.pem", o.cert), format!("{}.key.pem", o.ca), format!("{}.pem", o.ca)];
+	four.sort();
+	four.dedup();
+	let distinct = four.len() == 4;
+	if !distinct && ok && o.cert != o.ca {
+		s.rep.violate("C18:outputs-overwritten", "base names whose outputs share a file are accepted: one output overwrites another and the tool still exits successfully", replay.clone());
+	}
+	if distinct && !o.cert.contains('/') && !o.ca.contains('/') {
 		if valid && !ok && !panicked {
 			s.rep.violate("C18:valid-options-fail", "a valid option set makes the tool exit with an error", replay.clone());
 		}
@@ -197,7 +206,7 @@ fn run_case(s: &mut Suite, cli: &str, aws: bool, n: usize, o: &Opts) {
 		let _ = std::fs::remove_dir_all(&base);
 		return;
 	}
-	if o.cert == o.ca {
+	if !distinct {
 		let _ = std::fs::remove_dir_all(&base);
 		return; // same base names: the property only speaks about distinct ones
 	}
@@ -311,6 +320,14 @@ pub fn run(ctx: &mut Ctx) -> Report {
 	cases.push(Opts { country: Some("".into()), org: Some("".into()), cn: Some("".into()), ..base.clone() });
 	cases.push(Opts { cert: "leaf".into(), ca: "authority".into(), dir_exists: false, ..base.clone() });
 	cases.push(Opts { cert: "same".into(), ca: "same".into(), ..base.clone() });
+	// base names that differ but share an output file, and look-alikes that do not
+	cases.push(Opts { cert: "x.key".into(), ca: "x".into(), ..base.clone() });
+	cases.push(Opts { cert: "x".into(), ca: "x.key".into(), dir_exists: false, ..base.clone() });
+	cases.push(Opts { cert: "x.key.key".into(), ca: "x".into(), ..base.clone() });
+	cases.push(Opts { cert: "x.pem".into(), ca: "x".into(), ..base.clone() });
+	cases.push(Opts { cert: "x.key.pem".into(), ca: "x".into(), ..base.clone() });
+	cases.push(Opts { cert: "x.KEY".into(), ca: "x".into(), ..base.clone() });
+	cases.push(Opts { cert: ".key".into(), ca: "k".into(), ..base.clone() });
 	cases.push(Opts { cert: "a.b c".into(), ca: "ü".into(), ..base.clone() });
 	let n_random = if s.ctx.thorough { 300 } else { 25 };
 	for _ in 0..n_random {
